@@ -73,6 +73,10 @@ class C18(Harness):
                {'mode': 'indent', 'gen': 'alpha', 'alphabet': ['x', ' ', '\t', '\n', ' '], 'n': 4 if q else 5,
                 'pmax': 2},
                {'mode': 'indent', 'gen': 'sym1', 'n': 3 if q else 4, 'pmax': 1}]
+        for t in ('code', 'mixed', 'blank', 'nbsp', 'crlf'):
+            out.append({'mode': 'spec', 'gen': 'tmpl', 'tmpl': t})
+            out.append({'mode': 'idem', 'gen': 'tmpl', 'tmpl': t})
+            out.append({'mode': 'indent', 'gen': 'tmpl', 'tmpl': t, 'pmax': 1 if q else 2, 'pgen': 'sym1'})
         return out
 
     def bounds_text(self, tier):
@@ -86,7 +90,7 @@ class C18(Harness):
         mode = cfg['mode']
         inp = {'s': s}
         if mode == 'indent':
-            pc = dict(cfg, n=cfg['pmax'])
+            pc = dict(cfg, n=cfg['pmax'], gen=cfg.get('pgen', cfg['gen']))
             p = gen_ml_text(self, I, pc, 'p')
             for c, _ in p.chars:
                 w = is_ws(self, I, c)
